@@ -1,0 +1,20 @@
+//go:build verif
+
+package mysql
+
+// VerifCloseAll closes every node handle the cluster ever created (Close() leaves cascade and
+// non-HA local handles open, which is harmless for a process that exits but not for a harness
+// that must end with no goroutine left).
+func (c *Cluster) VerifCloseAll() {
+	c.Lock()
+	defer c.Unlock()
+	for _, n := range c.haNodes {
+		_ = n.Close()
+	}
+	for _, n := range c.cascadeNodes {
+		_ = n.Close()
+	}
+	if c.local != nil {
+		_ = c.local.Close()
+	}
+}
